@@ -12,7 +12,7 @@ def run_case(spec):
 def check(rep, tier, seed, specs=None, n_override=None):
     quick = tier == 'quick'
     if specs is None:
-        n = n_override or (4000 if quick else 200000)
+        n = n_override or (12000 if quick else 200000)
         specs = [{'seed': common.hash64('c08', 'fixed' if i < n // 2 else seed, i)} for i in range(n)]
     results, lost = common.shard_run('c08', specs, timeout_s=1500 if quick else 6 * 3600)
     rep.rule = ('generated references (1-4 genes, 1-2 isoforms, coding/non-coding mix, biotypes incl. ones on the default exclusion list, short '
